@@ -20,7 +20,7 @@ mut_demo=$(/venv/bin/python $SRC/demo.py >/tmp/seed_demo_mut_$NAME.txt 2>&1; ech
 echo "[$NAME] demo pristine exit=$base_demo, demo patched exit=$mut_demo, tests: $tests"
 cd /verif
 for P in $PID $EXTRA; do
-  out=$(VERIF_REPO=$WT VERIF_EVIDENCE_DIR=/tmp/verif-mutant-evidence bin/check $P $TIER 2>&1 | grep -v "WARNING conda")
+  out=$(VERIF_REPO=$WT VERIF_STOP_ON_VIOLATION=1 VERIF_EVIDENCE_DIR=/tmp/verif-mutant-evidence bin/check $P $TIER 2>&1 | grep -v "WARNING conda")
   rc=$(echo "$out" | grep -c "^VIOLATION property=$P")
   echo "$out" | grep -A1 "^VIOLATION" | head -4 | cut -c1-400
   echo "$out" | tail -1
